@@ -81,7 +81,9 @@ def all_configs(tier):
 
 
 PROP_CONFIGS = {
-    'C07': dict(quick=['s1_weekly', 's1_weekly_holiday', 's2_weekly5', 's2_latestart'], thorough=None),
+    'C07': dict(quick=['s1_weekly', 's1_weekly_holiday', 's2_weekly5', 's2_latestart'],
+                thorough=['s1_weekly', 's1_weekly_holiday', 's2_weekly5', 's2_latestart', 's2_weekly', 's2_dynamic_signals', 's1_burnin', 's1_bah', 's1_ls', 's2_ls',
+                          's1_eom', 's1_daily', 's1_weekly_fri', 's2_weekly_holiday', 's2_entries_on_instant']),
     'C08': dict(quick=['s1_weekly', 's1_bah', 's1_ls', 's1_two_rebalances'], thorough=['s1_weekly', 's1_bah', 's2_weekly', 's1_ls', 's1_ls8', 's1_two_rebalances', 's2_ls', 's1_eom', 's1_daily', 's1_weekly_fri', 's1_zerofee_weekly_mon']),
     'C18': dict(quick=['s2_weekly5', 's2_dynamic_signals'], thorough=['s2_weekly', 's2_dynamic_signals', 's1_weekly', 's2_ls', 's3_dynamic_signals']),
     'C16': dict(quick=['s2_dynamic_signals'], thorough=['s2_dynamic_signals', 's3_dynamic_signals']),
